@@ -100,7 +100,7 @@ fn check_serials(what: &str, size: usize, serials: &[u32], first: u32, handed: u
 
 fn collections(seed: u64, rep: &mut Report) {
     let mut sizes: Vec<usize> = (0..=130).collect();
-    sizes.extend([191, 192, 193, 255, 256, 257, 320, 511, 512, 513, 640, 1000, 1023, 1024, 1025, 2048, 4096, 4097, 10_000, 65_536, 65_537]);
+    sizes.extend([191, 192, 193, 255, 256, 257, 320, 511, 512, 513, 640, 1000, 1023, 1024, 1025, 2048, 4096, 4097, 10_000, 65_536, 65_537, 131_073, 300_000, 1_048_577, 1_200_000]);
     for (k, &size) in sizes.iter().enumerate() {
         let first = (k as u32) * 7;
         let mut rng = TraceRng::new(mix(seed, size as u64));
@@ -419,7 +419,7 @@ pub fn run(args: &Args) -> i32 {
     rep.finish(
         args,
         "exploration",
-        "collection generators for sizes 0..130, around multiples of 64 up to 4097, 10^4, 65536 and 65537 over Vec (three construction paths, repeated sampling), Bitstring (incl. random / random_with_probability), Plushy and scored populations with a counting element generator; 19 choice-construction flavours x collection sizes 1..8, 13, 64, 100, 257, 1000 (arrays 1,2,3,5,8) with the stated number of draws each; 16 empty-collection constructions. distinct_nontrivial = distinct (flavour, size) configurations",
+        "collection generators for sizes 0..130, around multiples of 64 up to 4097, 10^4, 65536, 65537, 131073, 3*10^5, 2^20+1 and 1.2*10^6 over Vec (three construction paths, repeated sampling), Bitstring (incl. random / random_with_probability), Plushy and scored populations with a counting element generator; 19 choice-construction flavours x collection sizes 1..8, 13, 64, 100, 257, 1000 (arrays 1,2,3,5,8) with the stated number of draws each; 16 empty-collection constructions. distinct_nontrivial = distinct (flavour, size) configurations",
         false,
         &[
             "order of elements inside a generated collection and over-draw from the element generator are recorded but not judged",
